@@ -16,7 +16,7 @@ from vf.oracle import conn, sph
 
 ID = "C18"
 RULE = (
-    "closed meshes {tetra, cube, octa, prism, cubesplit, pyr4..8, cs2, icosa} and every non-empty face subset of the meshes with <= 8 faces x index deviations <= k "
+    "closed meshes {tetra, cube, octa, prism, cubesplit, pyr4..8, cs2, icosa}, kilometre-scale quad patches (0.002-degree cells: mid-latitude, across the antimeridian, next to the pole) and every non-empty face subset of the meshes with <= 8 faces x index deviations <= k "
     "(node relabelling, face order, start corner) x placements {as is, a node rotated onto the north pole, onto the south pole, onto lon=180 lat=0, generic tilt} x data "
     "{identity, generic; face- and node-centred; leading dims (), (2); element dimension last, first and in the middle}; JIT on, and a JIT-off pass in a separate interpreter. non-trivial = mesh with a node of "
     "valence >= 4 or a partial grid with both interior and boundary nodes; distinct = (mesh/subset, deviation, placement)"
@@ -31,6 +31,7 @@ BOUNDS = {
     "quick": "deviations <= 1 on closed meshes (relabel cap 10), subsets of meshes with <= 6 faces, 5 placements on 4 meshes; JIT-off on 4 meshes + subsets of 2",
     "thorough": "deviations <= 2 on meshes with <= 9 faces, subsets of meshes with <= 8 faces, 5 placements on all closed meshes; JIT-off on all closed meshes + subsets of 4",
 }
+FINE = ["finequads", "finequads-am", "finequads-pole"]
 CLOSED = ["tetra", "cube", "octa", "prism", "cubesplit", "pyr4", "pyr5", "pyr6", "pyr7", "pyr8", "cs2", "icosa"]
 
 
@@ -114,7 +115,8 @@ def check_dual(g, m, V, focus, with_data=True):
             if closed_fan and b not in _neighbours_through_node(m, a, n, E):
                 bad("c18:ring-adjacency", "dual face of node %d: consecutive corners %d,%d are primal faces that do not share an edge at that node (ring %s)" % (n, a, b, ring))
                 break
-            if closed_fan and tp < 1e-9:
+            # relative to the size of the fan (an absolute threshold would reject every kilometre-scale mesh)
+            if closed_fan and tp < 1e-6 * float(np.linalg.norm(C[a] - c) * np.linalg.norm(C[b] - c)):
                 bad("c18:ring-orientation", "dual face of node %d is not counter-clockwise seen from outside (ring %s, triple product %.3g)" % (n, ring, tp))
                 break
         if not closed_fan and k >= 3:
@@ -196,6 +198,9 @@ def cases(tier):
             out.append({"kind": "subsets", "mesh": name})
     for name in (["cube", "pyr5", "octa", "cubesplit"] if quick else CLOSED):
         out.append({"kind": "placements", "mesh": name})
+    # kilometre-scale partial meshes (cells of 0.002 degrees; also across the antimeridian and next to the pole)
+    for name in FINE:
+        out.append({"kind": "mesh", "mesh": name, "k": 0 if quick else 1, "cap": 10})
     return out
 
 
